@@ -2,6 +2,7 @@ import Heph.Model.Subst
 import Heph.Proofs.Heap
 import Heph.Generated.Writes
 import Heph.Proofs.SubstWitness
+import Heph.Proofs.SubstClosure
 /-!
 # C07 — instantiation substitutes everywhere and mutates nothing
 
@@ -83,6 +84,12 @@ theorem getSubst_eq_substS_partial (t : Ty) (σ : TMap) (dflt : Bool) (ps : List
     (hσ : ∀ p ∈ σ, hasTV p.2 = false) (hc : σ.covers ps) (ht : tvarsWithin ps t = true) :
     getSubst t σ dflt = substS σ t :=
   getSubst_eq t σ ps dflt hσ hc ht
+
+/-- in particular `substitute_type(t, σ)` is the syntactic substitution -/
+theorem substituteType_eq_substS (t : Ty) (σ : TMap) (ps : List Ty)
+    (hσ : ∀ p ∈ σ, hasTV p.2 = false) (hc : σ.covers ps) (ht : tvarsWithin ps t = true) :
+    substituteType t σ = substS σ t :=
+  getSubst_eq t σ ps false hσ hc ht
 
 /-- the same for argument lists (`substitute_type_args`) -/
 theorem getSubstL_eq_substSL (l : List Ty) (σ : TMap) (dflt : Bool) (ps : List Ty)
@@ -198,6 +205,28 @@ theorem new_supertypes_transitive (con : Ty) (args : List Ty) (h : hasTVL args =
     rw [new_supertypes_partial c _ htv hc hl']
     rfl
   · simp only [substS, argsOf, sups]
+
+/-- at every depth: every instance `c'<as'>` that the class declarations put above `con<args>`
+    (`SuperInst`, the reflexive-transitive closure of "declares the supertype … under the
+    instance's own map") is present in `get_supertypes()` of `con.new(args)` as a node of class
+    `c'` with exactly the arguments `as'` (type-variable free) and, as its stored supertypes,
+    `c'`'s declared supertypes under `{parameters of c' ↦ as'}` -/
+theorem new_supertypes_closure (con : Ty) (args : List Ty) (h : hasTVL args = false)
+    (hcl : closedCon con = true) (hlen : (conParams con).length ≤ args.length)
+    (c' : Ty) (as' : List Ty) (hsi : SuperInst con args c' as') :
+    hasTVL as' = false ∧ closedCon c' = true ∧ (conParams c').length ≤ as'.length ∧
+    ∃ u ∈ closure (tconNew con args), u.isParam = true ∧ stripCon (conOf u) = stripCon c' ∧
+      argsOf u = as' ∧ u.sups = conSups (instConS c' (TMap.mk (conParams c') as')) :=
+  superInst_mem_closure con args h hcl hlen hsi
+
+/-- `Root<Lst<String>>` lies above `Foo<String>` (two declaration steps) -/
+example : SuperInst fooC [strT] rootC [tconNew lstC [strT]] := by
+  have h1 : SuperInst fooC [strT] baseC [tconNew lstC [strT]] :=
+    SuperInst.step (c' := fooC) (as' := [strT]) (nm := "Base") (c'' := baseC)
+      (bs := [tconNew lstC [tX]]) (ss := (tconNew baseC [tconNew lstC [tX]]).sups)
+      SuperInst.refl (by decide)
+  exact SuperInst.step (c' := baseC) (as' := [tconNew lstC [strT]]) (nm := "Root") (c'' := rootC)
+      (bs := [tT]) (ss := []) h1 (by decide)
 
 /-- `Foo<String>`: its supertype is `Base<Lst<String>>`, whose supertype is `Root<Lst<String>>` -/
 example : closedCon fooC = true ∧ hasTVL [strT] = false ∧
@@ -321,6 +350,23 @@ theorem subst_ground_tvfree (ps : List Ty) (t : Ty) (σ : TMap)
     (ht : tvarsWithin ps t = true) (hc : σ.covers ps)
     (hσ : ∀ p ∈ σ, mentionsTV p.2 = false) : mentionsTV (substS σ t) = false :=
   mentionsTV_substS t σ ps hσ hc ht
+
+/-- for the map the code builds from parameters and arguments: instantiating the parameters `ps`
+    with arguments free of type variables in a type whose variables are within `ps` -/
+theorem subst_ground_tvfree_mk (ps vs : List Ty) (t : Ty) (hlen : ps.length ≤ vs.length)
+    (hv : mentionsTVL vs = false) (ht : tvarsWithin ps t = true) :
+    mentionsTV (substS (TMap.mk ps vs) t) = false :=
+  mentionsTV_substS t _ ps (TMap.mk_pres (mentionsTV · = false) _ _ (mentionsTVL_false_mem hv))
+    (TMap.mk_covers ps vs hlen) ht
+
+/-- the same with Python's own notion `has_type_variables()` for the replacements and the
+    result -/
+theorem subst_ground_hasTV (ps : List Ty) (t : Ty) (σ : TMap) (dflt : Bool)
+    (ht : tvarsWithin ps t = true) (hc : σ.covers ps)
+    (hσ : ∀ p ∈ σ, hasTV p.2 = false) :
+    hasTV (substS σ t) = false ∧ hasTV (getSubst t σ dflt) = false := by
+  rw [getSubst_eq t σ ps dflt hσ hc ht]
+  exact ⟨hasTV_substS σ hσ ps hc t ht, hasTV_substS σ hσ ps hc t ht⟩
 
 /-- `σ.covers ps` follows from `σ` binding the members of `ps` themselves -/
 theorem covers_of_get (σ : TMap) (ps : List Ty) (h : ∀ p ∈ ps, (σ.get p).isSome = true) :
